@@ -120,6 +120,12 @@ def shapes(sk, lo, span, *xs):
             f.getRankAttrs().setFormat("U")
     else:
         f = Fiber(cs, vs)
+    if sk.get("prelude") is not None and len(cs) > sk["prelude"]:
+        # an earlier, legal use of a search shortcut on the same fiber leaves a saved position behind; it must not leak into the traversal
+        pp = sk["prelude"]
+        for _ in f.iterRange(None, None, start_pos=pp):
+            pass
+        f.getPayload(cs[pp], start_pos=pp)
     snap = raw(f)
     if mode == "shape":
         it = f.iterShape()
@@ -201,7 +207,12 @@ def lazy(sk, *xs):
     ac, av = list(xs[:na]), list(xs[na:2 * na])
     bc, bv = list(xs[2 * na:2 * na + nb]), list(xs[2 * na + nb:2 * na + 2 * nb])
     rest = xs[2 * na + 2 * nb:]
-    a, b = Fiber(ac, av), Fiber(bc, bv)
+    dflt = sk.get("default", 0)
+    if dflt:
+        # a non-zero leaf default: an element holding 0 is *present* and must survive materialisation, and the eager copy keeps the default
+        a, b = Fiber(ac, av, default=dflt), Fiber(bc, bv, default=dflt)
+    else:
+        a, b = Fiber(ac, av), Fiber(bc, bv)
     if kind == "and":
         z = a & b
     elif kind == "or":
@@ -230,6 +241,8 @@ def lazy(sk, *xs):
         want = [(c, pv(p)) for c, p in l1]
         if raw(e) != want:
             return fail("materialised fiber differs from the lazy traversal")
+        if pv(e.getDefault()) != dflt:
+            return fail("materialised fiber has default %r, the lazy fiber's is %r" % (pv(e.getDefault()), dflt))
     return True
 
 
@@ -357,6 +370,9 @@ def obligations(tier):
                     if mode in ("activeShape", "activeShapeRef", "iter_U"):
                         p2 += ["lo <= %s < lo + span" % c for c in cn]
                     obs.append(Ob("shapes/%s/%d/step%d" % (mode, n, step), "shapes", dict(n=n, mode=mode, step=step), ["lo", "span"] + base, p2))
+                    if n == 2 and step == 1 and mode in ("rangeShapeRef", "activeShapeRef", "rangeShape"):
+                        obs.append(Ob("shapes/%s/%d/step%d/after-shortcut" % (mode, n, step), "shapes", dict(n=n, mode=mode, step=step, prelude=1),
+                                      ["lo", "span"] + base, p2))
             for mode in ("shape", "shapeRef"):
                 S = 3
                 obs.append(Ob("shapes/%s/%d" % (mode, n), "shapes", dict(n=n, mode=mode, step=1, S=S), ["lo", "span"] + base,
@@ -380,6 +396,8 @@ def obligations(tier):
         pre = chain_pre(an) + chain_pre(bn)
         for kind, extra in (("and", []), ("or", []), ("sub", []), ("project", ["o"]), ("prune", ["th"])):
             obs.append(Ob("lazy/%s/%dx%d" % (kind, na, nb), "lazy", dict(na=na, nb=nb, kind=kind), base + extra, pre))
+            if kind in ("project", "prune", "sub") and nb == 1:
+                obs.append(Ob("lazy/%s/%dx%d/default7" % (kind, na, nb), "lazy", dict(na=na, nb=nb, kind=kind, default=7), base + extra, pre))
     for na, nb in ([(0, 1), (1, 1), (2, 1)] if q else [(0, 1), (1, 1), (2, 1), (2, 2)]):
         an, bn = names("a", na), names("b", nb)
         base = an + names("u", na) + bn + names("w", nb)
